@@ -145,12 +145,24 @@ namespace Mutagen
     ftruncate n Env.clean s =
       (.ok (), { data := s.data.take n, pos := s.pos, ops := s.ops + 1, log := .truncate n :: s.log }) := rfl
 
-theorem moveStep_clean (a b n : Nat) (s : FS) :
+theorem readFull_clean (n : Nat) (s : FS) (h : s.pos + n ≤ s.data.length) :
+    readFull n Env.clean s =
+      (.ok (readAt s.data s.pos n),
+       { data := s.data, pos := s.pos + n, ops := s.ops + 1, log := .read n :: s.log }) := by
+  have hl : (readAt s.data s.pos n).length = n := length_readAt _ _ _ h
+  have c1 : ¬ ((n : Int) < 0) := by omega
+  simp [readFull, bind_run, c1, hl]
+
+theorem moveStep_clean (a b n : Nat) (s : FS) (h : a + n ≤ s.data.length) :
     moveStep a b n Env.clean s =
       (.ok (), { data := writeData s.data b (readAt s.data a n), pos := b + (readAt s.data a n).length,
                  ops := s.ops + 4,
                  log := .write (readAt s.data a n).length :: .seek b :: .read n :: .seek a :: s.log }) := by
-  simp [moveStep, bind_run]
+  have hl : (readAt s.data a n).length = n := length_readAt _ _ _ h
+  unfold moveStep
+  simp only [bind_run, fseek_clean]
+  rw [readFull_clean n _ (by simpa using h)]
+  simp [hl]
 
 /-- the number of mutating calls in a log -/
 def mutCount (l : List Op) : Nat := (l.filter Op.mutates).length
@@ -171,7 +183,8 @@ theorem moveFwdM_clean (B : Nat) (hB : 0 < B) (dest src count moved : Nat) (f : 
     have h2 : ¬ (B = 0) := by omega
     unfold CleanOk
     unfold moveFwdM
-    simp only [h1, h2, ↓reduceDIte, bind_run, moveStep_clean]
+    simp only [h1, h2, ↓reduceDIte, bind_run]
+    rw [moveStep_clean _ _ _ s (by rw [hs]; omega)]
     have hw : dest + moved ≤ s.data.length := by rw [hs]; omega
     have hl : (writeAt f (dest + moved) (readAt f (src + moved) this_move)).length = f.length := by
       apply length_writeAt
@@ -194,7 +207,8 @@ theorem moveBwdM_clean (B : Nat) (hB : 0 < B) (dest src count : Nat) (f : Bytes)
     have h2 : ¬ (B = 0) := by omega
     unfold CleanOk
     unfold moveBwdM
-    simp only [h1, h2, ↓reduceDIte, bind_run, moveStep_clean]
+    simp only [h1, h2, ↓reduceDIte, bind_run]
+    rw [moveStep_clean _ _ _ s (by rw [hs]; omega)]
     have hw : count + dest - this_move ≤ s.data.length := by rw [hs]; omega
     have hl : (writeAt f (count + dest - this_move) (readAt f (src + count - this_move) this_move)).length
         = f.length := by
